@@ -25,6 +25,8 @@ harness("geom_pbt", "san", "pbt/geom_pbt.cc", link="-lrapidcheck")
 harness("c13_corner_table", "san", "pbt/c13_corner_table.cc", link="-lrapidcheck")
 harness("prim_pbt", "san", "pbt/prim_pbt.cc", link="-lrapidcheck")
 harness("c11_metadata", "san", "pbt/c11_metadata.cc", link="-lrapidcheck")
+harness("c20_animation", "san", "pbt/c20_animation.cc", link="-lrapidcheck")
+harness("c14_builders", "san", "pbt/c14_builders.cc", link="-lrapidcheck")
 
 # ------------------------------------------------------------------------------------------------
 
@@ -362,7 +364,27 @@ def check_c11(tier):
                          "independent of the geometry payload"])
 
 
+def check_c20(tier):
+    return check_simple("C20", "c20_animation", "c20", tier, 1500, 15000,
+                        ["quantized_tracks", "raw_float_tracks", "integer_tracks", "timestamps_first",
+                         "timestamps_between", "timestamps_last", "tracks_0", "tracks_8"],
+                        ["quantization bits above 22 (24 thorough) and 32-bit integers above 2^21 are not generated "
+                         "(cost of the symbol coder's entropy estimate)"])
+
+
+def check_c14(tier):
+    return check_simple("C14", "c14_builders", "c14", tier, 2500, 30000,
+                        ["builder_finalized", "direct_dedup_ok", "cleanup_mask_7", "cleanup_mask_1", "cleanup_mask_2",
+                         "cleanup_mask_4", "cleanup_removed_faces", "strips_restart_checked", "strips_degenerate_checked",
+                         "pc_builder_dedup", "pc_builder_nodedup", "special_float_patterns"],
+                        ["strip output is taken through std::back_inserter (StoreStrip receives the iterator by value)",
+                         "in degenerate-triangle mode faces with a repeated point id cannot be told from stitching and are "
+                         "not required in the output"])
+
+
 CHECKS = {
+    "C14": check_c14,
+    "C20": check_c20,
     "C11": check_c11,
     "C16": check_c16,
     "C17": check_c17,
@@ -378,6 +400,8 @@ CHECKS = {
 REPLAYERS = {
     # property -> list of (harness, default mode)
     "C11": [("c11_metadata", "c11")],
+    "C20": [("c20_animation", "c20")],
+    "C14": [("c14_builders", "c14")],
     "C13": [("c13_corner_table", "c13")],
     "C16": [("prim_pbt", "c16")],
     "C17": [("prim_pbt", "c17")],
